@@ -139,12 +139,17 @@ func main() {
 	var s *session
 	mk := func() bool {
 		var err error
-		s, err = newSession(cfg, 0xC0100000|uint32(c.Batch)<<8|uint32(time.Now().UnixNano()&0xff))
-		if err != nil {
-			c.Inconclusive(fmt.Sprintf("%s: cannot establish a session: %v", cfg.name, err))
-			return false
+		for attempt := 0; attempt < 3; attempt++ {
+			s, err = newSession(cfg, 0xC0100000|uint32(c.Batch)<<8|uint32(time.Now().UnixNano()&0xff))
+			if err == nil {
+				return true
+			}
+			time.Sleep(100 * time.Millisecond)
 		}
-		return true
+		// a correctly configured collector/exporter pair on loopback that cannot get a session going
+		// three times in a row is not an environment problem
+		c.Violation(-1, "cannot-establish-session:"+cfg.name, fmt.Sprintf("a correctly configured exporter/collector pair could not establish a %s session in 3 attempts: %v", cfg.name, err), nil)
+		return false
 	}
 	if !mk() {
 		c.Finish()
